@@ -338,8 +338,20 @@ def run_plateau(pe, acc, case):
                             e, tol = sum((wi / w.sum()) * c[t] for wi, t in zip(w, ts)), 1e-7
                         sub = dict(case, pattern=list(pattern), route=route, method=method, given=given)
                         try:
-                            r = C2.plateau(method=method) if given is None else C2.plateau(given, method=method)
+                            arg = None if given is None else list(given)
+                            stored = list(C2.prange)
+                            r = C2.plateau(method=method) if given is None else C2.plateau(arg, method=method)
                             bad = same_entry(r, e, pe, tol)
+                            # call history: the same range object (or the stored range) used again must give the same plateau,
+                            # and neither the caller's list nor the stored range may have been changed
+                            if not bad:
+                                r2 = C2.plateau(method=method) if given is None else C2.plateau(arg, method=method)
+                                bad = same_entry(r2, e, pe, tol)
+                                bad = bad and 'second call with the same range object: ' + bad
+                            if not bad and arg is not None and arg != list(given):
+                                bad = 'plateau changed the range list passed by the caller: %s -> %s' % (list(given), arg)
+                            if not bad and list(C2.prange) != stored:
+                                bad = 'plateau changed the stored plateau range: %s -> %s' % (stored, list(C2.prange))
                         except Exception as ex:
                             bad = 'raised %s: %s' % (type(ex).__name__, ex)
                         if bad:
